@@ -1,15 +1,94 @@
-"""Which units decide which property.  `v`: unit files under units/ (extracted + Verus, or
-spec-only lemma files); `k`: (crate, [harness...]) Kani groups, harness kind 'complete' unless
-given as (name, 'bounded:<n>'); `b`: bounded native sets (never counted as proved)."""
+"""Which units decide which property.
+
+`v`: unit files under units/ (real functions extracted + Verus; or spec-only lemma files)
+`k`: (crate, [harness...]) Kani groups — every harness is loop-free over the full input domain
+     (complete) unless given as (name, 'bounded:<n>')
+`b`: bounded native contract sets (stand-in; labelled bounded, never counted as proved)
+`pairs`: V/K unit or obligation -> bounded obligations that search for a concrete failing input
+"""
+
+COMMON_NOTE = ("Trusted: Verus/Z3, Kani/CBMC, rustc, the extractor's rule catalogue (each application listed in the evidence); "
+               "dependencies (bitcode, crc32fast, lz4, std I/O, HashMap internals) by assumed contract; no concurrency "
+               "(locks erased, single thread); fsync/rename as specified by the OS.")
 
 PROPS = {
+    'C01': dict(
+        v=['C01_kernels'],
+        k=[('tensor_chain', ['c01_quorum_majority'])],
+        b=[],
+        level='other',
+        technique='Verus contracts on extracted Raft kernels + Kani full-domain harness; lemmas',
+        claim='quorum arithmetic and log-index conversion proved for all inputs (Verus + Kani); quorum-intersection lemma',
+        explanation='Per-function contracts on the Raft arithmetic kernels are discharged deductively; the history-level induction over N nodes x network is not claimed.',
+    ),
+    'C04': dict(
+        v=[], k=[('relational_engine', ['c04_ordfloat_total_order', 'c04_ordfloat_eq_implies_cmp_equal'])], b=[],
+        level='other',
+        technique='Kani full-domain harnesses on OrderedFloat comparator (bit-precise f64)',
+        claim='the btree key comparator is a total order on all f64 bit patterns (Kani, complete)',
+        explanation='Comparator kernel proved; query strategies are checked by the bounded sets.',
+    ),
+    'C06': dict(
+        v=['C06_sparse'], k=[], b=[],
+        level='other',
+        technique='Verus contracts on extracted SparseVector::try_from_dense / to_dense + round-trip lemma',
+        claim='sparse<->dense conversion keeps exactly the non-zero entries with exact values, representation invariant holds (Verus, all inputs)',
+        explanation='Representation round trip proved; search structure is bounded.',
+    ),
+    'C07': dict(
+        v=[], k=[('tensor_store', ['c07_header_roundtrip_fields', 'c07_header_roundtrip_bytes', 'c07_header_validate_exact'])], b=[],
+        level='other',
+        technique='Kani full-domain harnesses on SnapshotHeader raw codec and validate',
+        claim='snapshot header codec is bijective on all 20-byte arrays; validate accepts exactly (V3 magic, current version)',
+        explanation='Header codec proved; store round trips bounded.',
+    ),
+    'C14': dict(
+        v=[], k=[('tensor_vault', ['c14_permission_allows_total_order', 'c14_permission_level_roundtrip', 'c14_max_min_are_lattice_ops',
+                                   'c14_attenuate_never_amplifies_and_monotone'])], b=[],
+        level='other',
+        technique='Kani full-domain harnesses on the permission lattice and attenuation policy',
+        claim='permission order/lattice ops and hop attenuation monotonicity proved for all policies and hop counts (Kani, complete)',
+        explanation='Lattice kernels proved; access decisions bounded.',
+    ),
+    'C15': dict(
+        v=[], k=[('neumann_parser', ['c15_binding_power_matches_documented_levels'])], b=[],
+        level='other',
+        technique='Kani full-domain harness on the Pratt binding-power table vs the documented precedence levels',
+        claim='binding-power table is order-isomorphic to the documented precedence, left-associative, prefix tighter than infix (Kani, complete)',
+        explanation='Table proved; parser totality bounded.',
+    ),
+    'C17': dict(
+        v=['C17_gossip'],
+        k=[('tensor_chain', ['c17_sup_irreflexive', 'c17_sup_asymmetric', 'c17_sup_transitive', 'c17_sup_total_on_keys'])],
+        b=[],
+        level='proof',
+        technique='Verus: extracted merge/tick/sync_time proved equal to a fold spec + convergence theorem; Kani: supersedes is a strict order',
+        claim='real merge == left fold of "adopt iff greater in a strict total order" (Verus, all maps and batches); that fold is independent of order/grouping/repetition (Verus theorem); clock and merged incarnation never decrease; supersedes order kernel (Kani, all states)',
+        explanation='',
+    ),
+    'C18': dict(
+        v=[], k=[('graph_engine', ['c18_dijkstra_entry_total_order', 'c18_dijkstra_entry_min_heap_direction'])], b=[],
+        level='other',
+        technique='Kani full-domain harnesses on the Dijkstra heap entry ordering',
+        claim='heap entry order is total, NaN-safe and min-first (Kani, complete)',
+        explanation='Heap order kernel proved; path validity/optimality bounded.',
+    ),
+    'C19': dict(
+        v=['C19_chunk'], k=[], b=[],
+        level='other',
+        technique='Verus contract on extracted Chunker::chunk_count (nonlinear lemma; div_ceil by assumed std contract)',
+        claim='chunk count is ceil(len/chunk_size) for every len and chunk_size >= 1 (Verus)',
+        explanation='Chunk arithmetic proved; blob operations bounded.',
+    ),
     'C20': dict(
-        v=['C20_ids'],
+        v=['C20_ids', 'C20_rle', 'C06_sparse'],
         k=[('tensor_chain', ['c20_frame_flags_roundtrip', 'c20_method_from_flags_total', 'c20_length_prefix_roundtrip']),
            ('tensor_store', ['c07_header_roundtrip_fields', 'c07_header_roundtrip_bytes', 'c07_header_validate_exact'])],
         b=['c20_ids'],
         pairs={'C20_ids': ['bounded:c20_ids']},
         level='other',
-        explanation='',
+        technique='Verus: extracted delta/varint/compress_ids/rle/sparse codecs proved against spec functions + round-trip theorems; Kani: frame flags, length prefix, snapshot header; bounded native pair for replay',
+        claim='id-list, varint, RLE and sparse codecs are exact inverses for ALL inputs and total on arbitrary bytes (Verus, unbounded); frame flag/length-prefix/header codecs (Kani, complete); bounded native pair supplies replayable inputs',
+        explanation='Deductive part: every obligation of the V/K units. Bounded part (labelled): native enumeration used to attach concrete inputs to failed obligations.',
     ),
 }
